@@ -77,6 +77,10 @@ type sPeer struct {
 	sess     *session
 	done     bool
 	refused  int
+	capRand  *rand.Rand // used by serve() only: capability of unscripted connections
+	lastCap  int        // capability of the previous established connection: -1 none, 0 off, 1 on
+	flipOnOff, flipOffOn int
+	widthOK  int // eBGP UPDATEs whose AS_PATH width matched the connection's capability
 	slow     bool // pace accepts (special schedule: bounds the trace if the session reconnects in a tight loop)
 }
 
@@ -134,6 +138,9 @@ func (p *sPeer) serve() {
 		sc := p.def
 		if len(p.scripts) > 0 {
 			sc, p.scripts = p.scripts[0], p.scripts[1:]
+		} else if p.capRand != nil {
+			// the peer may come back with different capabilities (restart, failover, reconfiguration)
+			sc.as4 = p.capRand.Intn(2) == 0
 		}
 		if sc.dropAfter >= 0 {
 			pc.arm, pc.armMid = sc.dropAfter, sc.dropMid
@@ -204,6 +211,17 @@ func (p *sPeer) handle(pc *sPeerConn, sc sConnScript) {
 	if acc {
 		pc.estab = true
 		p.cur = pc
+		now := 0
+		if sc.as4 {
+			now = 1
+		}
+		if p.lastCap == 1 && now == 0 {
+			p.flipOnOff++
+		}
+		if p.lastCap == 0 && now == 1 {
+			p.flipOffOn++
+		}
+		p.lastCap = now
 	} else {
 		pc.gone = true
 	}
@@ -254,6 +272,22 @@ func (p *sPeer) handle(pc *sPeerConn, sc sConnScript) {
 			}
 			return
 		}
+		width := sASPathWidth(mb)
+		if len(mb) > 18 && mb[18] == 2 && width >= 0 {
+			wantW := 2
+			if sc.as4 {
+				wantW = 4
+			}
+			if p.ibgp {
+				wantW = 0
+			}
+			if width != wantW {
+				p.fail("session-aspath-width-not-of-current-connection",
+					fmt.Sprintf("c%d: peer announced as4=%v on THIS connection, AS_PATH written with %d-octet AS numbers (want %d): %x", pc.id, sc.as4, width, wantW, mb))
+			} else if !p.ibgp {
+				p.widthOK++
+			}
+		}
 		m, derr := vDecode(mb, sc.as4)
 		switch {
 		case derr != nil:
@@ -302,7 +336,7 @@ func (p *sPeer) handle(pc *sPeerConn, sc sConnScript) {
 						continue
 					}
 					pc.table[k] = v
-					p.log(fmt.Sprintf("TUpd %d %d %d", pc.id, k, v), fmt.Sprintf("c%d: update k%d=a%d", pc.id, k, v))
+					p.log(fmt.Sprintf("TUpd %d %d %d %d", pc.id, k, v, width), fmt.Sprintf("c%d: update k%d=a%d (AS width %d)", pc.id, k, v, width))
 				}
 			}
 			if len(u.Withdrawn) > 0 {
@@ -323,6 +357,49 @@ func (p *sPeer) handle(pc *sPeerConn, sc sConnScript) {
 		}
 		p.mu.Unlock()
 	}
+}
+
+// sASPathWidth walks the raw path attributes of an UPDATE and returns the width
+// of the AS numbers in AS_PATH: 0 (empty path), 2 or 4; -1 if there is none /
+// the message is not an UPDATE with attributes.
+func sASPathWidth(mb []byte) int {
+	if len(mb) < 23 || mb[18] != 2 {
+		return -1
+	}
+	wl := int(mb[19])<<8 | int(mb[20])
+	o := 21 + wl
+	if o+2 > len(mb) {
+		return -1
+	}
+	al := int(mb[o])<<8 | int(mb[o+1])
+	o += 2
+	end := o + al
+	if end > len(mb) {
+		return -1
+	}
+	for o+3 <= end {
+		fl, ty := mb[o], mb[o+1]
+		n, h := int(mb[o+2]), 3
+		if fl&0x10 != 0 {
+			if o+4 > end {
+				return -1
+			}
+			n, h = int(mb[o+2])<<8|int(mb[o+3]), 4
+		}
+		if ty == 2 {
+			switch n {
+			case 0:
+				return 0
+			case 4:
+				return 2
+			case 6:
+				return 4
+			}
+			return -1
+		}
+		o += h + n
+	}
+	return -1
 }
 
 func sKeyOf(n vNLRI) int {
@@ -398,12 +475,26 @@ func sRunSchedule(t *testing.T, out *vOut, id int, r *rand.Rand, special string)
 	if special == "asn65536" {
 		ibgp, myASN, as4 = false, 65536, false
 	}
+	capflip := strings.HasPrefix(special, "capflip:") // capflip:<on-off|off-on>:<ebgp|ibgp>
+	if capflip {
+		myASN, ibgp = 64512, strings.HasSuffix(special, ":ibgp")
+		as4 = strings.Contains(special, ":off-on:")
+	}
 	peerASN := uint32(sPeerASN)
 	if ibgp {
 		peerASN = myASN
 	}
-	p := &sPeer{t: t, ln: ln, myASN: myASN, ibgp: ibgp, closedAt: -1, slow: special == "asn65536",
+	p := &sPeer{t: t, ln: ln, myASN: myASN, ibgp: ibgp, closedAt: -1, slow: special == "asn65536", lastCap: -1,
 		def: sConnScript{asn: peerASN, as4: as4, dropAfter: -1}}
+	if special == "" && myASN <= 65535 {
+		p.capRand = rand.New(rand.NewSource(r.Int63()))
+	}
+	if capflip {
+		// first connection with the opposite capability of all later ones
+		first := p.def
+		first.as4 = !as4
+		p.scripts = []sConnScript{first}
+	}
 	if special == "close-in-backoff" {
 		p.def.asn = peerASN + 1 // every handshake is refused: the session sits in its backoff sleep
 	}
@@ -412,6 +503,9 @@ func sRunSchedule(t *testing.T, out *vOut, id int, r *rand.Rand, special string)
 	wrongUsed := false
 	for i := 0; i < nscripts && special == ""; i++ {
 		sc := p.def
+		if p.capRand != nil {
+			sc.as4 = r.Intn(2) == 0
+		}
 		switch r.Intn(6) {
 		case 0:
 			if !wrongUsed { // at most one refused handshake per schedule: the second costs a 1s backoff
@@ -526,6 +620,20 @@ func sRunSchedule(t *testing.T, out *vOut, id int, r *rand.Rand, special string)
 	nact := 4 + r.Intn(9)
 	if special != "" {
 		nact = 1
+	}
+	if capflip {
+		nact = 0
+		setNonEmpty := func() {
+			doSet()
+			for i := 0; len(want) == 0 && i < 20; i++ {
+				doSet()
+			}
+		}
+		setNonEmpty()
+		time.Sleep(40 * time.Millisecond) // first connection (capability A) gets its UPDATEs
+		p.dropIdle()                      // the peer goes away and comes back with capability not-A
+		time.Sleep(20 * time.Millisecond)
+		setNonEmpty()
 	}
 	for a := 0; a < nact; a++ {
 		switch x := r.Intn(10); {
@@ -661,6 +769,12 @@ func sRunSchedule(t *testing.T, out *vOut, id int, r *rand.Rand, special string)
 	}
 	if special == "close-in-backoff" {
 		out.Stat("sess:close-in-backoff-refusals", p.refused)
+	}
+	out.Stat("sess:cap-flip-on-off", p.flipOnOff)
+	out.Stat("sess:cap-flip-off-on", p.flipOffOn)
+	out.Stat("sess:ebgp-updates-with-connection-width", p.widthOK)
+	if capflip && !ibgp {
+		out.Stat("sess:capflip-ebgp-updates-after-flip", p.widthOK)
 	}
 	out.Stat("sess:messages", p.msgs)
 	out.Stat("sess:keepalives", p.kalives)
@@ -808,6 +922,23 @@ func sStepCase(out *vOut, id int, r *rand.Rand) {
 		fmt.Sprintf("pre: closed=%v conn=%v advertised=%v new(nil=%v)=%v", pre.closed, pre.conn, pre.adv, !pre.hasPend, pre.pend), opH, "post: " + postH}})
 }
 
+// the peer changes its capabilities between two connections of one session
+var sCapFlips = []string{"capflip:on-off:ebgp", "capflip:off-on:ebgp", "capflip:on-off:ibgp", "capflip:off-on:ibgp"}
+
+// TestVerifCapFlip is the C16-side check: the bytes a REAL session writes after
+// a reconnect to a peer with other capabilities must decode, with the AS width
+// of the current connection, to the intended routes.
+func TestVerifCapFlip(t *testing.T) {
+	out := vOpen()
+	defer out.Close()
+	r := vRand()
+	for k := 0; k < vN(2); k++ {
+		for i, sp := range sCapFlips {
+			sRunSchedule(t, out, 1+k*len(sCapFlips)+i, rand.New(rand.NewSource(r.Int63())), sp)
+		}
+	}
+}
+
 func TestVerifSess(t *testing.T) {
 	out := vOpen()
 	defer out.Close()
@@ -824,6 +955,9 @@ func TestVerifSess(t *testing.T) {
 		defer wg.Done()
 		sRunSchedule(t, out, 2, rand.New(rand.NewSource(seed)), "close-in-backoff")
 	}(r.Int63())
+	for i, sp := range sCapFlips {
+		sRunSchedule(t, out, 3+i, rand.New(rand.NewSource(r.Int63())), sp)
+	}
 	sem := make(chan struct{}, par)
 	for i := 0; i < n; i++ {
 		seed := r.Int63()
@@ -832,7 +966,7 @@ func TestVerifSess(t *testing.T) {
 		go func(i int, seed int64) {
 			defer wg.Done()
 			defer func() { <-sem }()
-			sRunSchedule(t, out, i+3, rand.New(rand.NewSource(seed)), "")
+			sRunSchedule(t, out, i+3+len(sCapFlips), rand.New(rand.NewSource(seed)), "")
 		}(i, seed)
 	}
 	wg.Wait()
